@@ -1255,6 +1255,13 @@ func (mgr *Manager) UpdateTag(name string, operation UpdateTagOperation) error {
 					todo = append(todo, t.referencedTags()...)
 				}
 			}
+			if newTag != nil && len(tag.converters) != 0 {
+				// the same rule as for attaching a converter: a restart would drop the attachment otherwise
+				f := newTag.features
+				if f.MainFeatures&query.FeatureFilterData != 0 || f.SubQueryFeatures&query.FeatureFilterData != 0 || len(f.MainTags) > 0 || len(f.SubQueryTags) > 0 {
+					return fmt.Errorf("query is too complex for tag %q which has converters attached", name)
+				}
+			}
 			if info.color != "" {
 				tag.color = info.color
 			}
